@@ -26,7 +26,7 @@ RULE = (
     "the histories follow optimizer-like F,G,F,G.. patterns at moving points); evaluator "
     "variants: label-driven recording evaluator, two different garbage fillings of inactive entries (moderate values, or 1e160 against a moderate one), mean or stddev estimator, memoizing "
     "evaluator that returns the same EvaluatorResult object / arrays for repeated requests, evaluator that returns "
-    "write-protected views of persistent buffers it refills on the next call, evaluators that return Fortran-ordered, strided or float32 arrays; x handed in as a write-protected view. Oracle: trace predicate "
+    "write-protected views of persistent buffers it refills on the next call, evaluators that return Fortran-ordered, strided, float32 or integer arrays; x handed in as a write-protected view. Oracle: trace predicate "
     "(needed label set each once, user-domain variables, reported value == transform(returned value at that label), "
     "inactive => weight 0, split: weight 0 => inactive), garbage metamorphic relation, deep-copy comparison of the "
     "evaluator's objects, immutability of delivered results. "
@@ -41,6 +41,11 @@ ASSUMPTIONS = [
 
 _GARBAGE = (777.25, -31.5)
 _HUGE = (1e160, -31.5)  # (one huge, one moderate: two huge values could both turn a result into NaN)
+
+
+def _extreme(_call: int, row: int, _kind: str, _col: int) -> float:
+    """Values close to the largest float with alternating sign: their differences and squares overflow."""
+    return 1.5e308 if row % 2 == 0 else -1.5e308
 
 
 class Memo:
@@ -123,6 +128,8 @@ class Layout:
             return np.asfortranarray(a)
         if self.kind == "float32":
             return a.astype(np.float32)
+        if self.kind == "integer":  # an evaluator that happens to produce whole numbers in an integer array
+            return np.rint(a).astype(np.int64)
         big = np.full((a.shape[0] * 2, a.shape[1] * 3), -4321.0)
         big[::2, ::3] = a
         return big[::2, ::3]
@@ -222,7 +229,8 @@ def walk_arrays(obj: Any, path: str = "result") -> list[tuple[str, np.ndarray]]:
 
 
 def rows_match(a: np.ndarray, b: np.ndarray) -> bool:
-    return a.shape == b.shape and bool(np.all(np.abs(a - b) <= 1e-12 * (1 + np.abs(b))))
+    with np.errstate(invalid="ignore", over="ignore"):  # (an inactive entry close to the largest float may become infinite in a transform)
+        return a.shape == b.shape and bool(np.all((a == b) | (np.abs(a - b) <= 1e-12 * (1 + np.abs(b)))))
 
 
 def run_history(case: dict[str, Any], garbage: float | None, memo: bool) -> dict[str, Any]:  # noqa: C901, FBT001, PLR0912, PLR0915
@@ -298,11 +306,17 @@ def run_history(case: dict[str, Any], garbage: float | None, memo: bool) -> dict
         robj = t_obj(np.asarray(returned.objectives, dtype=np.float64))
         rcon = None if returned.constraints is None else t_con(np.asarray(returned.constraints, dtype=np.float64))
 
-        def row_of(r: int, p: int, v: np.ndarray) -> int:
-            for i in range(rv.shape[0]):
-                if int(rr[i]) == r and int(rp[i]) == p and rows_match(rv[i], v):
-                    return i
-            return -1
+        def rows_of(r: int, p: int, v: np.ndarray) -> list[int]:
+            # (a batch may hold the same vector twice: rows with the same label and variables are interchangeable)
+            return [i for i in range(rv.shape[0]) if int(rr[i]) == r and int(rp[i]) == p and rows_match(rv[i], v)]
+
+        def from_row(r: int, p: int, v: np.ndarray, rep_obj: Any, rep_con: Any, what: str) -> None:  # noqa: ANN401
+            cand = rows_of(r, p, v)
+            check(any(rows_match(np.asarray(rep_obj), robj[i]) for i in cand), "value-label",
+                  f"{kind}: {what} objectives are not the values returned for the row with that label", case)
+            if rcon is not None and rep_con is not None:
+                check(any(rows_match(np.asarray(rep_obj), robj[i]) and rows_match(np.asarray(rep_con), rcon[i]) for i in cand), "value-label",
+                      f"{kind}: {what} constraints are not the values returned for the row with that label", case)
 
         if kind == "F":
             pts = x if (x.shape[0] > 1 or not op[2]) else x[:1]
@@ -310,27 +324,17 @@ def run_history(case: dict[str, Any], garbage: float | None, memo: bool) -> dict
             for b_i, res in enumerate(results):
                 check(bool(np.array_equal(np.asarray(res.evaluations.variables), pts[b_i])), "variables", "reported variables differ", case)
                 for r in range(r_n):
-                    i = row_of(r, -1, to_user(pts[b_i]))
-                    check(rows_match(np.asarray(res.evaluations.objectives)[r], robj[i]), "value-label",
-                          f"F: objectives of realization {r} are not the values returned for its row", case)
-                    if rcon is not None:
-                        check(rows_match(np.asarray(res.evaluations.constraints)[r], rcon[i]), "value-label",
-                              f"F: constraints of realization {r} are not the values returned for its row", case)
+                    from_row(r, -1, to_user(pts[b_i]), np.asarray(res.evaluations.objectives)[r],
+                             None if rcon is None else np.asarray(res.evaluations.constraints)[r], f"realization {r}:")
         else:
             assert gres is not None
             pv = np.asarray(gres.evaluations.perturbed_variables)
             for r in range(r_n):
                 if fres is not None:
-                    i = row_of(r, -1, to_user(x[0]))
-                    check(rows_match(np.asarray(fres.evaluations.objectives)[r], robj[i]), "value-label",
-                          f"{kind}: objectives of realization {r} are not the values returned for its row", case)
+                    from_row(r, -1, to_user(x[0]), np.asarray(fres.evaluations.objectives)[r], None, f"realization {r}:")
                 for p in range(p_n):
-                    i = row_of(r, p, to_user(pv[r, p]))
-                    check(rows_match(np.asarray(gres.evaluations.perturbed_objectives)[r, p], robj[i]), "value-label",
-                          f"{kind}: perturbed objectives ({r},{p}) are not the values returned for that row", case)
-                    if rcon is not None:
-                        check(rows_match(np.asarray(gres.evaluations.perturbed_constraints)[r, p], rcon[i]), "value-label",
-                              f"{kind}: perturbed constraints ({r},{p}) are not the values returned for that row", case)
+                    from_row(r, p, to_user(pv[r, p]), np.asarray(gres.evaluations.perturbed_objectives)[r, p],
+                             None if rcon is None else np.asarray(gres.evaluations.perturbed_constraints)[r, p], f"perturbed ({r},{p}):")
         # ---- 3. activity flags
         if split:
             assert last_f is not None
@@ -440,7 +444,9 @@ def summarise(res: Any) -> dict[str, Any]:  # noqa: ANN401
 
 
 def run_case(case: dict[str, Any]) -> dict[str, Any]:
-    garbage = _HUGE if case.get("huge") else _GARBAGE  # any finite value may sit in an inactive entry
+    garbage: Any = _HUGE if case.get("huge") else _GARBAGE  # any finite value may sit in an inactive entry
+    if case.get("huge") == "extreme":
+        garbage = (_extreme, -31.5)
     s1 = run_history(case, garbage[0], case["memo"])
     s2 = run_history(case, garbage[1], False)
     if not s1["aborted"] and not s2["aborted"]:
@@ -514,9 +520,9 @@ def hypothesis_shard(item: dict[str, Any]) -> Collector:
             "design": [draw(st.sampled_from([-1.0, 1.0, 0.5, 0.0])) for _ in range(r_n * p_n * n)],
             "estimator": draw(st.sampled_from([None, None, "mean", "stddev"])) if r_n > 1 else None,
             # an objective that is only monitored (objective weight 0) is still evaluated and reported
-            "obj_weights": [1.0] + [draw(st.sampled_from([0.0, 0.0, 2.0])) for _ in range(k_n - 1)] if k_n > 1 and draw(st.booleans()) else None, "huge": draw(st.integers(0, 3)) == 0,
+            "obj_weights": [1.0] + [draw(st.sampled_from([0.0, 0.0, 2.0])) for _ in range(k_n - 1)] if k_n > 1 and draw(st.booleans()) else None, "huge": draw(st.sampled_from([False, False, False, False, True, True, "extreme"])),
             "history": history, "memo": draw(st.booleans()), "readonly": draw(st.booleans()), "ro_x": draw(st.booleans()),
-            "info": draw(st.booleans()), "layout": draw(st.sampled_from([None, None, "fortran", "strided", "float32"])),
+            "info": draw(st.booleans()), "layout": draw(st.sampled_from([None, None, "fortran", "strided", "float32", "integer"])),
             "transforms": tr, "vscale": [draw(st.sampled_from([0.5, 2.0, 4.0])) for _ in range(n)],
             "voff": [draw(st.sampled_from([0.0, 1.0])) for _ in range(n)],
             "oscale": [draw(st.sampled_from([2.0, 0.5])) for _ in range(k_n)],
@@ -524,8 +530,8 @@ def hypothesis_shard(item: dict[str, Any]) -> Collector:
         })
 
     def finish(case: dict[str, Any]) -> dict[str, Any]:
-        if case["layout"] == "float32":
-            case["huge"] = False  # 1e160 is not a finite float32
+        if case["layout"] in ("float32", "integer"):
+            case["huge"] = False  # 1e160 is not a finite float32 / int64
         return case
 
     def body(case: dict[str, Any]) -> None:
@@ -536,7 +542,7 @@ def hypothesis_shard(item: dict[str, Any]) -> Collector:
             "inactive-entries" if stats["inactive"] else "all-active", "memo-repeat" if stats["repeats"] else "no-repeat",
             f"transforms={case['transforms'] or 'none'}", "filters" if case["filters"] else "no-filters",
             "zero-weights" if 0.0 in case["weights"] else "positive-weights", f"estimator={case['estimator'] or 'default'}",
-            "huge-garbage" if case["huge"] else "moderate-garbage", "zero-objective-weight" if case["obj_weights"] and 0.0 in case["obj_weights"] else "positive-objective-weights", "tiny-weights" if any(0 < w < 1e-6 for w in case["weights"]) else "no-tiny-weights", *(f"op={k}" for k in sorted(kinds)),
+            ("extreme-garbage" if case["huge"] == "extreme" else "huge-garbage") if case["huge"] else "moderate-garbage", "zero-objective-weight" if case["obj_weights"] and 0.0 in case["obj_weights"] else "positive-objective-weights", "tiny-weights" if any(0 < w < 1e-6 for w in case["weights"]) else "no-tiny-weights", *(f"op={k}" for k in sorted(kinds)),
             "aborted" if stats["aborted"] else "completed", "info" if case["info"] else "no-info",
             "persistent-readonly-buffers" if case["readonly"] and not case["memo"] else "fresh-or-memo-arrays",
             "readonly-x" if case["ro_x"] else "plain-x",
